@@ -79,17 +79,29 @@ fn comment_norm(t: &scan::Token, src: &str) -> (scan::Kind, String) {
     match t.kind {
         // the blanks between the marker and the text, and at the end of the line, are layout (the formatter writes
         // `-- text`); everything else on the line, including non-ASCII white space, is content
-        | scan::Kind::LineComment | scan::Kind::DocLine => {
+        | scan::Kind::LineComment => {
             // (a carriage return before the line break belongs to the line terminator)
             let body = s.trim_end_matches('\n').trim_end_matches('\r');
-            let marker = if t.kind == scan::Kind::DocLine { "--|" } else { "--" };
-            let text = body.strip_prefix(marker).unwrap_or(body);
+            let text = body.strip_prefix("--").unwrap_or(body);
             (t.kind, text.trim_matches(|c| c == ' ' || c == '\t').to_string())
+        }
+        // a `--|` line is text: it may be the string a `@(literal)` splice denotes or a documentation line. Only the ONE
+        // blank after the marker is layout (the formatter writes `--| text` for `--|text`); every other character,
+        // trailing blanks and tabs included, is content
+        | scan::Kind::DocLine => {
+            let body = s.trim_end_matches('\n').trim_end_matches('\r');
+            let text = body.strip_prefix("--|").unwrap_or(body);
+            (t.kind, text.strip_prefix(' ').unwrap_or(text).to_string())
         }
         // the formatter re-indents the continuation lines of a multi-line block comment: compare line by line
         // modulo surrounding whitespace
         | _ => (t.kind, s.lines().map(|l| l.trim()).collect::<Vec<_>>().join("\n")),
     }
+}
+
+/// The contents of the `--|` text lines of a source, in order (what a `@(literal)` splice or a `@[doc]` annotation reads).
+pub fn text_lines(src: &str) -> Vec<String> {
+    scan::scan(src).iter().filter(|t| t.kind == scan::Kind::DocLine).map(|t| comment_norm(t, src).1).collect()
 }
 
 // `end` goes when the alternative abstraction syntax `comatch params => body end` is printed as `fn params => body`
